@@ -19,7 +19,7 @@ def _c10_post(cov, acc, tier):
     c = acc["counters"]
     distinct = len(acc["distinct"]) + acc["distinct_overflow"]
     # states = distinct (hostname, kind) results of the enumerations + BFS states + the identity-checked IPv4 values
-    cov["states"] = distinct + c.get("ipv4_identity_values", 0)
+    cov["states"] = distinct + max(c.get("ipv4_identity_values", 0), c.get("ipv4_identity_values_quick_set", 0))
     cov["transitions"] = acc["evaluations"]
     cov["traces_validated_against_impl"] = acc["evaluations"]
 
